@@ -14,5 +14,6 @@ for d in glob.glob(os.path.join(ROOT, 'seeded', '*')):
 rows.sort()
 print('| id | caught | with a failing input |\n|---|---|---|')
 for _, _, _, sid, c in rows:
-    print(f"| {sid} | {'yes' if c['caught'] else 'NO'} | "
+    via = f" (by the check of {c['caught_via']})" if c.get('caught_via') else ''
+    print(f"| {sid} | {'yes' + via if c['caught'] else 'NO'} | "
           + ('yes' if c['with_failing_input'] else ('no (broken obligation / model-implementation disagreement only)' if c['caught'] else '-')) + ' |')
